@@ -20,10 +20,63 @@ def _locals_and_params(fn_text):
     return names
 
 
-def convert(fn, cls, info, rules, drop=(), synth_obj="g_synth", extra_scopes=()):
+def drop_if_blocks(body, patterns, protected, rules, fname):
+    """R9: removes whole `if(<cond>) <statement-or-block>` statements whose condition matches one of `patterns`
+    (debug-message bookkeeping on std::set / hooks).  Safe-drop condition, checked textually on every run: the removed
+    text assigns none of the `protected` identifiers; otherwise ExtractionError (exit 2)."""
+    for pat in patterns:
+        n = 0
+        pos = 0
+        while True:
+            m = re.compile(r"\bif\s*\(").search(body, pos)
+            if not m:
+                break
+            lp = m.end() - 1
+            rp = X.match_close(body, lp)
+            cond = body[lp + 1:rp]
+            if not re.search(pat, cond):
+                pos = m.end(); continue
+            k = rp + 1
+            while body[k] in " \t\r\n":
+                k += 1
+            if body[k] == "{":
+                end = X.match_close(body, k, "{", "}") + 1
+            else:
+                end = body.index(";", k) + 1
+            # an `else` after the dropped statement would change meaning: refuse
+            if re.match(r"\s*else\b", body[end:]):
+                raise ExtractionError("R9: dropped if-statement in %s has an else branch" % fname)
+            removed = body[m.start():end]
+            bad = re.search(r"\b(%s)\b\s*(=(?!=)|\+=|-=|\|=|&=)" % "|".join(protected), removed) if protected else None
+            if bad:
+                raise ExtractionError("R9: statement to drop in %s assigns protected identifier %s" % (fname, bad.group(1)))
+            body = body[:m.start()] + "/* R9 dropped: debug-message bookkeeping (%d chars, no protected identifier assigned) */" % len(removed) + body[end:]
+            n += 1
+            pos = m.start() + 10
+        rules._count("R9:drop_if:" + pat[:40], n)
+        if n == 0:
+            raise ExtractionError("R9 drop_if pattern did not fire in %s: %s" % (fname, pat))
+    return body
+
+
+def convert(fn, cls, info, rules, drop=(), synth_obj="g_synth", extra_scopes=(), drop_if=(), protected=(), cut_at=None, epilogue="", cut_from=None):
     """Apply the rule list to one function; returns C text."""
     ref_macros = []
     body = fn.body
+    if cut_from:
+        ms = list(re.finditer(cut_from, body))
+        if len(ms) != 1:
+            raise ExtractionError("R12 start anchor %r matches %d times in %s" % (cut_from, len(ms), fn.name))
+        body = "{\n    /* R12: statement range starts at the anchor; the locals live at entry are the parameters */\n" + body[ms[0].start():]
+        rules._count("R12:cut_from", 1)
+    if cut_at:
+        ms = list(re.finditer(cut_at, body))
+        if len(ms) != 1:
+            raise ExtractionError("R12 anchor %r matches %d times in %s" % (cut_at, len(ms), fn.name))
+        body = body[:ms[0].start()] + "\n    /* R12: statement range ends at the anchor; results handed to the harness */\n" + epilogue + "\n}"
+        rules._count("R12:cut_at", 1)
+    if drop_if:
+        body = drop_if_blocks(body, drop_if, protected, rules, fn.name)
     # R9 drop-safe statements (each regex must match a whole statement and is recorded)
     for rx in drop:
         body, n = re.subn(rx, "/* R9 dropped */", body)
@@ -81,7 +134,10 @@ def emit(workdir, specs, out="extracted.c", types=True, prelude_after=None):
         fn = X.find_function(cache[path], sp["name"], sp["file"], sp.get("params_re"), sp.get("which"))
         rules = X.Rules()
         name, ret, params, macros, text, undefs = convert(fn, sp.get("cls"), info, rules, sp.get("drop", ()),
-                                                          extra_scopes=sp.get("scopes", ()))
+                                                          extra_scopes=sp.get("scopes", ()), drop_if=sp.get("drop_if", ()),
+                                                          protected=sp.get("protected", ()), cut_at=sp.get("cut_at"), epilogue=sp.get("epilogue", ""), cut_from=sp.get("cut_from"))
+        if sp.get("params_override"):
+            params = sp["params_override"]; macros += "".join("#define %s (*%s__p)\n" % (r, r) for r in sp.get("ref_params", ())); undefs += "".join("#undef %s\n" % r for r in sp.get("ref_params", ()))
         for pat, rep in sp.get("post", ()):   # per-function syntactic edits, recorded like any other rule
             text, n = re.subn(pat, rep, text)
             rules._count("POST:" + pat[:40], n)
